@@ -88,20 +88,22 @@ def PES.unpack (t : PES) (buffer : Bytes) : PES × R Unit :=
       | .ok _ => (t, .error .struct)
     | .ok _ => (t, .error .struct)
 
+/-- the optional header is emitted iff `extension_w1`, `extension_w2` and `header_data` are all set -/
+def PES.ext (s : PES) : Option (Nat × Nat × Bytes) :=
+  match s.extension_w1, s.extension_w2, s.header_data with
+  | some w1, some w2, some hd => some (w1, w2, hd)
+  | _, _, _ => none
+
 /-- `PES.pack`: rebuilds `payload`, then `MPEGPacket.pack` -/
 def PES.pack (s : PES) : PES × R Bytes :=
-  let ext : Option (Nat × Nat × Bytes) :=
-    match s.extension_w1, s.extension_w2, s.header_data with
-    | some w1, some w2, some hd => some (w1, w2, hd)
-    | _, _, _ => none
-  let len := match ext with
+  let len := match PES.ext s with
     | some (_, _, hd) => 3 + s.pesdata.length + hd.length
     | none => s.pesdata.length
   match structPack PES_pack_fmt0 [0, 1, s.streamid, len] with
   | .error e => (s, .error e)
   | .ok h =>
     let s1 := { s with pkt := { s.pkt with payload := h } }
-    let eb : R Bytes := match ext with
+    let eb : R Bytes := match PES.ext s with
       | some (w1, w2, hd) =>
         match structPack PES_pack_fmt1 [w1, w2, hd.length] with
         | .ok x => .ok (x ++ hd)
